@@ -218,7 +218,7 @@ def gen_case(rng, thorough=False):
 
 
 def run(ctx):
-    total = 112 if ctx.tier == "quick" else 2800
+    total = 280 if ctx.tier == "quick" else 6000
     for _ in range(ctx.share(total)):
         if not ctx.time_left():
             break
